@@ -8,7 +8,7 @@ def model_sx(M):
     out = []
     for T in M.templates:
         idn = lambda i: str(int(i[2:]))
-        locs = ' '.join('(l %s %s %s %s %d %d)' % (idn(l['id']), l['name'][1:].replace('_', '0') if l['name'] else '-', l['inv'] or '-', l['rate'] or '-', l['urgent'], l['committed']) for l in T['locs'])
+        locs = ' '.join('(l %s %s %s %s %d %d)' % (idn(l['id']), (('9' if l['name'].startswith('_') else '') + l['name'].lstrip('_')[1:].replace('_', '0')) if l['name'] else '-', l['inv'] or '-', l['rate'] or '-', l['urgent'], l['committed']) for l in T['locs'])
         bps = ' '.join(idn(b) for b in T['bps'])
         edges = ' '.join('(e %s %s %d%s)' % (idn(e['src']), idn(e['dst']), e['control'], ''.join(' (%s %d)' % ({'select': 's', 'guard': 'g', 'sync': 'y', 'update': 'u', 'prob': 'p'}[k], m) for k, m in e['labels'])) for e in T['edges'])
         out.append('(t %s (locs %s) (bps %s) (init %s) (edges %s))' % (T['name'][1:], locs, bps, idn(T['init']), edges))
@@ -22,7 +22,7 @@ def model_expected(M):
         def nm(i):
             for l in T['locs']:
                 if l['id'] == i:
-                    return ('N' + str(int(l['name'][1:].replace('_', '0')))) if l['name'] else 'A' + str(int(i[2:]))
+                    return ('N' + str(int(('9' if l['name'].startswith('_') else '') + l['name'].lstrip('_')[1:].replace('_', '0')))) if l['name'] else 'A' + str(int(i[2:]))
             return 'A' + str(int(i[2:]))
         locs = ''.join(' (%s %s %s %d %d)' % (nm(l['id']), l['inv'] or '-', l['rate'] or '-', l['urgent'], l['committed']) for l in T['locs'])
         bps = ''.join(' A%d' % int(b[2:]) for b in T['bps'])
@@ -36,6 +36,52 @@ def model_expected(M):
             es += ' (%s %s %d [%s] %s %s %s %s)' % (nm(e['src']), nm(e['dst']), e['control'], ','.join(sel), lab['guard'], lab['sync'], lab['update'], lab['prob'])
         res.append('(t %d (locs%s) (bps%s) (init %s) (edges%s))' % (int(T['name'][1:]), locs, bps, nm(T['init']), es))
     return 'DOC wf=1 ' + ' '.join(res)
+
+
+INVARIANTS = ['x <= 5', 'x <= 5 && y <= 3', "x' == 0", "x <= 5 && x' == 0", "x' == 1 && y' == 0 && x <= 2", '(x <= 5 && y <= 2) && x\' == 0', 'x <= 5 && (y <= 2 && i == 1)',
+              "forall (k : int[0,1]) c[k]' == 0", "x <= 3 && forall (k : int[0,1]) c[k]' == 0", 'forall (k : int[0,1]) c[k] <= 4', "forall (k : int[0,1]) (c[k] <= 4 && c[k]' == 1)",
+              "forall (k : int[0,1]) forall (j : int[0,1]) d[k][j]' == 0", "forall (k : int[0,1]) c[k]' == 0 && forall (j : int[0,1]) c[j] <= 7", "i == 1 && x <= i", 'true',
+              "true || forall (k : int[0,1]) c[k]' == 0", "i == 1 || x' == 0"]
+
+
+def invariant_shapes(run):
+    """the stored invariant of a location against its label: the type checker rebuilds invariants that mention clock rates conjunct by conjunct
+    (RateDecomposer); whatever it does, the conjuncts stored must be those of the label, in order, after the constant 1 it starts from"""
+    import scopegen
+    def conjuncts(node):
+        if isinstance(node, list) and node and node[0] == 'AND':
+            kids = [x for x in node[1:] if isinstance(x, list)]
+            return conjuncts(kids[0]) + conjuncts(kids[1]) if len(kids) == 2 else [node]
+        return [node]
+    j = vlib.Job()
+    T = ('<?xml version="1.0" encoding="utf-8"?><nta><declaration>clock x, y; clock c[2]; clock d[2][2]; int i;</declaration><template><name>T</name><location id="id0"><label kind="invariant">%s</label></location>'
+         '<init ref="id0"/></template><system>system T;</system></nta>')
+    for k, inv in enumerate(INVARIANTS):
+        j.case('i%d' % k, fork=True).model('xml', T % docgen.XESC(inv)).dump('errors').dump('doc').expr(inv).end()
+    rr = vlib.run_jobs(j)
+    n = 0
+    for k, inv in enumerate(INVARIANTS):
+        c = rr['i%d' % k]
+        if c['status'] != 'ok' or len(c['cmds']) < 4:
+            run.fail('type checker crashed on the invariant %r (%s)' % (inv, c['status']), dict(invariant=inv, status=c['status']), shape='crash:invariant')
+            continue
+        if any(l.startswith('error') for l in c['cmds'][1][2]):
+            run.tie_broken('an invariant of the shape list is rejected', dict(invariant=inv, errors=[l for l in c['cmds'][1][2] if l.startswith('error')][:2]))
+            continue
+        stored = next((re.match(r't0 loc nr=0 .*? inv=(.*) exprate=', l).group(1) for l in c['cmds'][2][2] if l.startswith('t0 loc nr=0 ')), None)
+        label = next((l[5:] for l in c['cmds'][3][2] if l.startswith('tree ')), None)
+        if stored is None or label is None:
+            run.tie_broken('invariant shape: dump not found', dict(invariant=inv, lines=c['cmds'][3][2][:3]))
+            continue
+        n += 1
+        cs, cl = conjuncts(scopegen.sexpr(stored)), conjuncts(scopegen.sexpr(label))
+        if cs and cs[0] == ['CONSTANT', 'i:1']:
+            cs = cs[1:]
+        if cs != cl:
+            extra = [x for x in cs if x not in cl]
+            run.fail('the invariant label %r is stored as %d conjuncts where the label has %d: %s' % (inv, len(cs), len(cl), stored[:300]), dict(invariant=inv, stored=stored, label=label),
+                     shape='invariant-conjuncts:' + ('or-over-quantified-rate' if inv.startswith('true || forall') else re.sub(r'[^a-z]+', '-', inv)[:30]))
+    return n
 
 
 def check(run):
@@ -98,7 +144,8 @@ def check(run):
             samples.append(dict(xml=x, document=exp))
     if mmism:
         run.tie_broken('DocModel (extracted reader+builder) vs the generator\'s own model', mmism[:3] + [dict(total=len(mmism))])
-    run.cov.update(evaluations=len(models), distinct_nontrivial=len(set(xmls)), traces_validated_against_impl=len(models),
+    ninv = invariant_shapes(run)
+    run.cov.update(invariant_shapes=ninv, evaluations=len(models) + ninv, distinct_nontrivial=len(set(xmls)), traces_validated_against_impl=len(models),
                    rule='seeded random well-formed models: 0-4 templates (up to 8 in the thorough tier), value / reference parameters, local declarations, named and anonymous locations with invariant / exponential rate / urgent / committed, '
                         'branchpoints, self loops, parallel edges, edges through branchpoints, every subset and order of select / guard / synchronisation / assignment / probability labels (each with a unique marker), full instantiations, '
                         'system line with and without priorities; the real document dump must equal the generated model, and the extracted Coq reader+builder must produce the same document',
